@@ -711,9 +711,19 @@ func c06Case(run *evid.Run, i int, j *Journal) {
 			ce, _ = corrupt(kind, victim, victim, rng)
 			ents.Set(victim.GetHash().String(), ce)
 		}
+		// the offering log is BEHIND: it ends at that entry (its head), and holds that entry's past
+		lobs := hx.Observe(l)
+		var pastList []iface.IPFSLogEntry
+		for k := range model.Past(lobs.Set, []string{victim.GetHash().String()}) {
+			if c, err := cid.Decode(k); err == nil {
+				if pe, ok := ents.Get(c.String()); ok && pe != nil {
+					pastList = append(pastList, pe)
+				}
+			}
+		}
 		lo2 := x.W.LogOpts(x.W.LogID)
-		lo2.Entries = ents
-		lo2.Heads = heads
+		lo2.Entries = entry.NewOrderedMapFromEntries(pastList)
+		lo2.Heads = []iface.IPFSLogEntry{ce}
 		src, err := ipfslog.NewLog(x.W.Store.API(), x.W.Idents[0], lo2)
 		if err != nil {
 			panic(err)
